@@ -13,6 +13,7 @@ VAR_POOLS = {
               "S#SUBS#0", "C#CNF#1", "a#CNF#", "b#CNF#", "#EMPTY##SUBS#0"],
     "lower": ["S", "x", "y", "z"],          # needs "VAR:" markers in text form
     "ints": ["S", 1, 2, 3],
+    "int_str": ["S", 1, "1", "A"],          # different values with the same str()
 }
 TERM_POOLS = {
     "ab": ["a", "b"],
@@ -22,6 +23,7 @@ TERM_POOLS = {
     "shared": ["a", "A", "S"],               # terminals spelled like variables
     "shared_lower": ["x", "a", "y"],         # terminals spelled like the lower-case variables x, y
     "ints": [0, 1],
+    "int_str": [1, "1", "a"],                # different values with the same str()
     "fresh": ["a", "b", "#1CLOS#", "#0UNION#", "#1UNION#", "#0CONC#", "#1CONC#", "#1POSCLOS#"],   # the library's placeholder terminals
 }
 TEXT_OK_VARS = ("std", "long", "lower")
@@ -31,8 +33,8 @@ TEXT_OK_TERMS = ("ab", "abc", "tok", "upper", "shared", "shared_lower")
 @st.composite
 def cfg_desc(draw, var_pools=None, term_pools=None, max_vars=4, max_prods=8, max_body=4,
              allow_text=True, start_always=True, unit_bias=True, min_prods=1, suffix_bias=False, allow_big=True):
-    vp = draw(st.sampled_from(var_pools or ["std", "std", "std", "long", "lower", "ints", "fresh"]))
-    tp = draw(st.sampled_from(term_pools or ["ab", "ab", "abc", "tok", "upper", "shared", "ints", "shared_lower"]))
+    vp = draw(st.sampled_from(var_pools or ["std", "std", "std", "long", "lower", "ints", "fresh", "int_str"]))
+    tp = draw(st.sampled_from(term_pools or ["ab", "ab", "abc", "tok", "upper", "shared", "ints", "shared_lower", "int_str"]))
     vpool, tpool = VAR_POOLS[vp], TERM_POOLS[tp]
     # one case in six is "big": longer bodies, more variables and productions than the usual bounds
     big = allow_big and draw(st.sampled_from([0, 0, 0, 1, 0, 0])) == 1
